@@ -135,8 +135,7 @@ theorem valid_processBlock (P : Params) (s : NState) (b : Block) (h : Valid P s)
           · have h2 := valid_processOrphans P ((acceptBlock s b).1.orphans.length + 1) (acceptBlock s b).1 [b.id] h1
             split <;> exact h2
 
-theorem valid_submit (P : Params) (s : NState) (tx : Tx) (h : Valid P s) : Valid P (submit s tx).1 := by
-  unfold submit; split <;> exact h
+theorem valid_submit (P : Params) (s : NState) (tx : Tx) (h : Valid P s) : Valid P (submit s tx).1 := h
 
 theorem valid_run (P : Params) (s : NState) (ops : List Op) (h : Valid P s) : Valid P (run s ops) := by
   induction ops generalizing s with
